@@ -546,8 +546,9 @@ def call_method(spec, fn, case):
                 tgt = getattr(tgt, part)
             setattr(tgt, parts[-1], to_py(py2lean.parse_type(tt), case['self'][a]))
     else:
+        actual = cls.get('_actual') or {}       # round 3b: role -> attribute of the class under test
         for a, tt in cls['state'].items():
-            setattr(obj, a, to_py(py2lean.parse_type(tt), case['self'][a]))
+            setattr(obj, actual.get(a, a), to_py(py2lean.parse_type(tt), case['self'][a]))
     pos, named = [], {}
     for p, tt in spec['params'].items():
         v = to_py(py2lean.parse_type(tt), case[py2lean.mangle(p)])
@@ -581,7 +582,8 @@ def call_method(spec, fn, case):
                 tgt = getattr(tgt, part)
             out[a] = tgt
         return res, out
-    return res, {a: getattr(obj, a) for a in cls['state']}
+    actual = cls.get('_actual') or {}
+    return res, {a: getattr(obj, actual.get(a, a)) for a in cls['state']}
 
 
 def call_real(spec, fn, args):
@@ -674,14 +676,17 @@ def _tc_states(rng, quick):
     import importlib
     pycls = importlib.import_module('boltons.cacheutils').ThresholdCounter
 
+    actual = srctie_specs.THRESHOLD_COUNTER.get('_actual') or {}       # round 3b: role -> attribute
+    A = {r: actual.get(r, r) for r in ('_count_map', '_cur_bucket', '_thresh_count')}
+
     def snap(tc):
-        return {'total': tc.total, '_count_map': {k: tuple(v) for k, v in tc._count_map.items()},
-                '_cur_bucket': tc._cur_bucket, '_thresh_count': tc._thresh_count}
+        return {'total': tc.total, '_count_map': {k: tuple(v) for k, v in getattr(tc, A['_count_map']).items()},
+                '_cur_bucket': getattr(tc, A['_cur_bucket']), '_thresh_count': getattr(tc, A['_thresh_count'])}
     for _ in range(12 if quick else 120):
         w = rng.choice([1, 2, 3, 3, 4, 5, 7, 10])
         tc = pycls(threshold=1.0 / w * 0.999 if w > 1 else 0.99)
-        if tc._thresh_count != w:
-            tc._thresh_count = w
+        if getattr(tc, A['_thresh_count']) != w:
+            setattr(tc, A['_thresh_count'], w)
         keys = rng.sample(TC_KEYS, rng.randint(1, len(TC_KEYS)))
         yield snap(tc)
         for _ in range(rng.randint(1, 30)):
